@@ -1106,11 +1106,11 @@ func c07RunC(cs c07Case) (string, []lib.Problem) {
 			return "harness-error", []lib.Problem{{Key: "c07:harness:bad-reply", What: err.Error()}}
 		}
 		return rep.Outcome, rep.Probs
-	case <-time.After(60 * time.Second):
+	case <-time.After(5 * time.Minute):
 		c07Proc.kill()
 		c07Proc = nil
 		return "c " + class + " hung", []lib.Problem{{Key: "c07:c:process-hung:" + class,
-			What: fmt.Sprintf("%s %s pos=%d val=%d %s: LoadCheckpoint did not return within 60 s", f.Level, f.Entity, f.Pos, f.Val, f.Variant)}}
+			What: fmt.Sprintf("%s %s pos=%d val=%d %s: LoadCheckpoint did not return within 5 min", f.Level, f.Entity, f.Pos, f.Val, f.Variant)}}
 	}
 }
 
